@@ -272,6 +272,11 @@ def run(ctx):
         for (g, c, where, ok, detail) in ef.checked_sites:
             ctx.check(ok, "R8.4", "%s:propagate:%s->%s" % (m.name, g, c), where,
                       "error of %s dropped in %s: %s" % (g, c, detail))
+    # the end-of-trace lint visits every thread
+    from rules import listlinks
+    listlinks.check(ctx, "R8.4", lambda file, name: file.startswith("src/emu/") and file.endswith("/setup.c") and
+                    ("finish" in name or "lint" in name), minimum=6)
+
 
 
 def _guard(g, running, active, out):
